@@ -3,8 +3,8 @@
 V=$(cd "$(dirname "$0")/.." && pwd); cd $V
 for m in benign/*.patch; do
   S=$(mktemp -d /tmp/gpbn.XXXXXX); mkdir -p $S/repo $S/ev
-  git -C /repo archive HEAD | tar -x -C $S/repo
-  (cd $S/repo && git apply --whitespace=nowarn $V/$m) || { echo "$m APPLY-FAIL"; rm -rf $S; continue; }
+  rmdir $S/repo; git clone -q --shared /repo $S/repo
+  (cd $S/repo && git apply --3way --whitespace=nowarn $V/$m >/dev/null 2>&1) || { echo "$m APPLY-FAIL"; rm -rf $S; continue; }
   (cd $S/repo && GOFLAGS=-mod=mod go build ./... ) || { echo "$m BUILD-FAIL"; rm -rf $S; continue; }
   fired=""
   for p in $($V/bin/goparcheck -list); do
